@@ -887,21 +887,20 @@ func ruleC09InChain(r *Run) {
 		if !isHandlerShaped(f) || len(callsToFn(f, next)) == 0 {
 			continue
 		}
-		for _, cl := range f.AnonFuncs {
+		// the functions f defers: closures, or named functions of the module called directly by defer
+		var deferredFns []*ssa.Function
+		eachInstr(f, func(in ssa.Instruction) {
+			if d, ok := in.(*ssa.Defer); ok {
+				if mc, ok := d.Call.Value.(*ssa.MakeClosure); ok {
+					deferredFns = append(deferredFns, mc.Fn.(*ssa.Function))
+				} else if sc := d.Call.StaticCallee(); sc != nil && w.InModule(sc) {
+					deferredFns = append(deferredFns, sc)
+				}
+			}
+		})
+		for _, cl := range deferredFns {
 			recs := callsRecover(cl)
 			if len(recs) == 0 {
-				continue
-			}
-			// is cl deferred in f?
-			deferred := false
-			eachInstr(f, func(in ssa.Instruction) {
-				if d, ok := in.(*ssa.Defer); ok {
-					if mc, ok := d.Call.Value.(*ssa.MakeClosure); ok && mc.Fn == cl {
-						deferred = true
-					}
-				}
-			})
-			if !deferred {
 				continue
 			}
 			rv := recs[0].Value()
